@@ -62,7 +62,7 @@ def _schedule(repo, res, abc):
         raise AnalysisError("get_tolerance vanished")
     dist = Tok("dist")
     q = Tok("q")
-    summ = {"np.quantile": lambda a, b, **k: ("quantile", a, b)}
+    summ = {"np.quantile": lambda a, q=None, **k: ("quantile", a, q), "np.percentile": lambda a, q=None, **k: ("percentile", a, q)}
     cases = [
         ("g0,scalar", dict(tol=Tok("tol0"), q=None), 0, Tok("tol0")),
         ("g0,list", dict(tol=[Tok("t0"), Tok("t1"), Tok("t2")], q=None), 0, Tok("t0")),
@@ -75,6 +75,9 @@ def _schedule(repo, res, abc):
     for tag, attrs, g, want in cases:
         me = Obj("ABC", dist=dist, **attrs)
         ab = Abs({}, {}, summ, me)
+        ab.class_methods = set(abc.methods) | set(abc.getters)
+        ab.self_class = (repo, abc)
+        ab.module = f.module
         try:
             kind, out = ab.run_function(f.node, {f.params[1]: g})
         except Undecided as e:
